@@ -300,6 +300,15 @@ def run(ctx):
             for extra in (b"\x00", b"\x00" * 9, bytes(range(1, 40))):
                 m = pay + extra
                 specs.append((kind, "reencode", (EC.wrap(m) if EC.COMPRESSED[kind] else m).hex(), "trailing-bytes"))
+            if EC.COMPRESSED[kind]:
+                # the 4-byte length in front of the stream is only a hint: foreign blobs whose hint is off (under- or
+                # overstated) carry the same payload, with or without trailing data
+                import struct as _st
+                for p2 in (pay, pay + bytes(range(1, 13))):
+                    stream = EC.wrap(p2)[4:]
+                    for hint in (len(p2) - 1, len(p2) - 12, len(p2) // 2, 1, len(p2) + 7, 2 * len(p2)):
+                        if hint > 0:
+                            specs.append((kind, "reencode", (_st.pack(">i", hint) + stream).hex(), "length-hint-off"))
     ctx.sample({"kind": specs[0][0], "blob_prefix": specs[0][2][:80], "origin": specs[0][3]})
     codec_run.run_items("san", specs, lambda sp, r, c: judge_reencode(ctx, sp, r, c), batch=200)
     per = 40 if ctx.tier == "quick" else 1000
